@@ -1,0 +1,24 @@
+//go:build verif
+
+package rpc
+
+// Read-only view of a Conn's locks for the verification harness (property C09).
+// Compiled only with -tags verif.
+
+// VerifLocks reports whether c.mu and the sender lock are free right now.
+// It never blocks: c.mu is probed with TryLock and released again at once.
+// SenderFree is only meaningful when MuFree is true (sendCond is read under c.mu).
+type VerifLocks struct {
+	MuFree     bool
+	SenderFree bool
+}
+
+// VerifLocks probes the locks of c without waiting for them.
+func (c *Conn) VerifLocks() VerifLocks {
+	if !c.mu.TryLock() {
+		return VerifLocks{}
+	}
+	v := VerifLocks{MuFree: true, SenderFree: c.sendCond == nil}
+	c.mu.Unlock()
+	return v
+}
